@@ -38,6 +38,16 @@ const REGS: [(u64, u64, u64, u64); 2] = [
     (0x40000, 16 * PAGE, 0x7100_0000_0000, 4 * PAGE),
 ];
 
+/// table A = REGS; table B = the same guest ranges and files offsets with the two front-end (user) ranges swapped, so
+/// that the same front-end address translates to a different guest address depending on the table in force
+fn regs(t: usize) -> [(u64, u64, u64, u64); 2] {
+    if t == 0 {
+        REGS
+    } else {
+        [(REGS[0].0, REGS[0].1, REGS[1].2, REGS[0].3), (REGS[1].0, REGS[1].1, REGS[0].2, REGS[1].3)]
+    }
+}
+
 #[derive(Serialize, Deserialize, Debug, Clone, Hash, PartialEq, Eq)]
 pub enum Op {
     MemTable { b: bool },
@@ -60,6 +70,10 @@ pub struct Hist {
     pub rwlock: bool,
     pub wrap: Wrap,
     pub ops: Vec<Op>,
+    /// the device's own protocol_features() does not list REPLY_ACK (the request server adds it to the offer itself):
+    /// the usual configuration of real devices
+    #[serde(default)]
+    pub device_omits_reply_ack: bool,
 }
 
 #[derive(Clone, Debug, Default)]
@@ -83,7 +97,11 @@ struct HookOut {
 }
 
 fn run_generic<V: VringT<GM> + Clone + Send + Sync + 'static>(ctx: &mut Ctx, h: &Hist) -> Result<(), String> {
-    let cfg = BeCfg { num_queues: NRINGS, max_queue_size: MAXQ as usize, features: OFFERED, ..Default::default() };
+    let mut cfg = BeCfg { num_queues: NRINGS, max_queue_size: MAXQ as usize, features: OFFERED, ..Default::default() };
+    if h.device_omits_reply_ack {
+        cfg.pfeatures &= !(1 << spec::pf::REPLY_ACK);
+        ctx.class("device_omits_reply_ack");
+    }
     let fx: Fx<V> = Fx::new_wrapped(cfg, h.wrap)?;
     let mut s = Sess::open(fx, None)?;
     // two interchangeable sets of backing files
@@ -107,7 +125,7 @@ fn run_generic<V: VringT<GM> + Clone + Send + Sync + 'static>(ctx: &mut Ctx, h: 
         match op {
             Op::MemTable { b } => {
                 let t = *b as usize;
-                let body = spec::b_mem_table(&REGS.iter().map(|r| [r.0, r.1, r.2, r.3]).collect::<Vec<_>>());
+                let body = spec::b_mem_table(&regs(t).iter().map(|r| [r.0, r.1, r.2, r.3]).collect::<Vec<_>>());
                 let fds = [files[t][0].as_raw_fd(), files[t][1].as_raw_fd()];
                 if !s.acked(fe::SET_MEM_TABLE, &body, &fds)? {
                     return Err(format!("{desc}: a sorted, non-overlapping 2-region table was refused"));
@@ -162,7 +180,7 @@ fn run_generic<V: VringT<GM> + Clone + Send + Sync + 'static>(ctx: &mut Ctx, h: 
                 let mut va = [0u64; 3];
                 let mut gpa = [0u64; 3];
                 for k in 0..3 {
-                    let rg = REGS[reg[k] as usize];
+                    let rg = regs(table.unwrap_or(0))[reg[k] as usize];
                     let max_off = rg.1 - room[k];
                     let o = (off[k] as u64 * (max_off / al[k] + 1) >> 16) * al[k];
                     va[k] = rg.2 + o;
@@ -171,7 +189,7 @@ fn run_generic<V: VringT<GM> + Clone + Send + Sync + 'static>(ctx: &mut Ctx, h: 
                 let mut inside = true;
                 if let Some(k) = outside {
                     let k = (*k % 3) as usize;
-                    let rg = REGS[reg[k] as usize];
+                    let rg = regs(table.unwrap_or(0))[reg[k] as usize];
                     // first legal address after the region / last legal one before it
                     va[k] = if off[k] % 2 == 0 { rg.2 + rg.1 } else { rg.2 - al[k] };
                     inside = false;
@@ -561,7 +579,7 @@ fn op_strategy() -> impl Strategy<Value = Op> {
 }
 
 pub fn run(ctx: &mut Ctx) {
-    ctx.rule = "histories (1..24 steps) in arbitrary order over SET_MEM_TABLE (table A / table B, same geometry, different files), SET_VRING_NUM \
+    ctx.rule = "histories (1..24 steps) in arbitrary order over SET_MEM_TABLE (table A / table B: same guest ranges, different files, front-end ranges swapped), SET_VRING_NUM \
                 (index 0..=255, sizes around every power of two, 0, random), SET_VRING_BASE, SET_VRING_ADDR (address triples anywhere legal inside \
                 the two regions, or one address just outside; used index pre-written to guest memory), GET_VRING_BASE, SET_FEATURES (subset / \
                 superset / disjoint masks), SET_PROTOCOL_FEATURES+SET_BACKEND_REQ_FD, SET_VRING_CALL new/none, SET_VRING_KICK new/none (the ring is started before / between the configuration messages), and add_used+signal_used_queue run \
@@ -575,6 +593,6 @@ pub fn run(ctx: &mut Ctx) {
     ];
     let cases = ctx.tier.pick(4000u32, 120_000u32);
     let wrap = prop_oneof![Just(Wrap::Direct), Just(Wrap::Mutex), Just(Wrap::RwLock)];
-    let strat = (any::<bool>(), wrap, proptest::collection::vec(op_strategy(), 1..=24)).prop_map(|(rwlock, wrap, ops)| Hist { rwlock, wrap, ops });
+    let strat = (any::<bool>(), wrap, proptest::collection::vec(op_strategy(), 1..=24), any::<bool>()).prop_map(|(rwlock, wrap, ops, device_omits_reply_ack)| Hist { rwlock, wrap, ops, device_omits_reply_ack });
     ctx.prop_check("histories", cases, strat, |ctx, h| run_hist(ctx, h));
 }
